@@ -41,6 +41,25 @@ RULES = [
     (r"\btrue\b", "false", "true->false"), (r"\bfalse\b", "true", "false->true"),
 ]
 
+# second campaign: operators the first one did not have (forced conditions, deleted statements,
+# threshold constants, narrowed integer types, dropped casts and masks)
+RULES2 = [
+    (r"\bif (?!let\b)[^{]+ \{", "if true {", "cond->true"), (r"\bif (?!let\b)[^{]+ \{", "if false {", "cond->false"),
+    (r"\b16\b", "15", "16->15"), (r"\b16\b", "17", "16->17"), (r"\b32\b", "31", "32->31"), (r"\b32\b", "33", "32->33"),
+    (r"\b64\b", "63", "64->63"), (r"\b64\b", "65", "64->65"), (r"\b8\b", "9", "8->9"), (r"\b128\b", "129", "128->129"),
+    (r"\bu128\b", "u64", "u128->u64"), (r"\bu64\b", "u32", "u64->u32"), (r"\bu64\b", "u128", "u64->u128"),
+    (r"\bu32\b", "u16", "u32->u16"), (r"\bu16\b", "u8", "u16->u8"), (r"\bu8\b", "u16", "u8->u16"),
+    (r" as #[a-z_]+", "", "drop-cast"), (r" & #[a-z_]+", "", "drop-mask"), (r" \| #[a-z_]+", "", "drop-or"),
+    (r"\.rev\(\)", "", "drop-rev"), (r"\.iter\(\)\.skip\(1\)", ".iter()", "drop-skip"),
+    (r"\bmin\(", "max(", "min->max"), (r"\bmax\(", "min(", "max->min(fn)"),
+    (r"wrapping_sub", "wrapping_add", "wsub->wadd"), (r"\.unwrap_or\(([^)]*)\)", ".unwrap()", "unwrap_or->unwrap"),
+    (r"Some\(([a-z_]+)\)", "None", "some->none"),
+    (r"^(\s+)(?!let |use |return|pub |fn |//|\}|#)([^;{}]+;)\s*$", r"\1", "delete-statement"),
+    (r"\+ 1\b", "", "drop+1"), (r"- 1\b", "", "drop-1"),
+    (r"\bfirst\(\)", "last()", "first->last"), (r"\blast\(\)", "first()", "last->first"),
+]
+
+ACTIVE_RULES = RULES
 SKIP_LINE = re.compile(r"^\s*(//|///|use |#\[|\*)|format!\(|Error::new|panic!\(|expect\(|\"bitfield!")
 
 
@@ -53,9 +72,9 @@ def mutants_of(path, text):
     for ln, line in enumerate(lines):
         if SKIP_LINE.search(line):
             continue
-        for rx, rep, label in RULES:
+        for rx, rep, label in ACTIVE_RULES:
             for m in re.finditer(rx, line):
-                new = line[:m.start()] + rep + line[m.end():]
+                new = line[:m.start()] + m.expand(rep) + line[m.end():]
                 if new == line:
                     continue
                 yield ln + 1, label, m.start(), "\n".join(lines[:ln] + [new] + lines[ln + 1:]), line.strip(), new.strip()
@@ -70,7 +89,11 @@ def main():
     ap.add_argument("--layouts-c12", type=int, default=1600)
     ap.add_argument("--layouts-c11", type=int, default=800)
     ap.add_argument("--runs", type=int, default=600)
+    ap.add_argument("--ruleset", type=int, default=1, help="1 = first campaign's operators, 2 = second campaign's")
+    ap.add_argument("--count-only", action="store_true")
     a = ap.parse_args()
+    global ACTIVE_RULES
+    ACTIVE_RULES = RULES if a.ruleset == 1 else RULES2
     os.makedirs(a.out, exist_ok=True)
     wt = os.path.join(a.out, "wt")
     sh(f"git -C /repo worktree remove --force {wt}")
@@ -96,6 +119,11 @@ def main():
     if a.limit:
         cands = cands[: a.limit]
     print(f"{len(cands)} candidate mutants", flush=True)
+    if a.count_only:
+        from collections import Counter
+        print(Counter(c[2] for c in cands))
+        sh(f"git -C /repo worktree remove --force {wt}")
+        return
     out = open(results_path, "a")
     for k, (rel, ln, label, col, mutated, before, after) in enumerate(cands):
         key = f"{rel}:{ln}:{col}:{label}"
